@@ -327,13 +327,19 @@ pub struct X86Out {
 }
 
 /// Follows control from `start` through the permitted forms until it arrives at an address in
-/// `stop`, returns, or meets bytes it does not know.
+/// `stop`, returns, or meets bytes it does not know.  Sixteen symbolic registers (None = not set
+/// by the sequence) and the values the sequence itself pushed are tracked; the forms are the
+/// ones a patcher has reason to emit: `jmp rel32`, `jmp [rip+0]`, `mov r64, imm64`,
+/// `mov r64, simm32`, `mov r32, imm32`, `mov al, imm8`, `xor eax, eax`, `jmp r64`,
+/// `push imm8/imm32` (+ `mov dword [rsp+4], imm32`), `pop r64`, `ret`, `nop`, `endbr64`.
 pub fn x86_follow(mem: &dyn Mem, start: u64, stop: &[u64], max_insns: usize) -> X86Out {
     let mut o = X86Out { end: X86End::HopLimit, hops: vec![], insns: vec![], rax_written: false, trace: vec![] };
     let mut pc = start;
-    let mut rax: Option<u64> = None;
+    let mut reg: [Option<u64>; 16] = [None; 16];
+    const NAMES: [&str; 16] = ["rax", "rcx", "rdx", "rbx", "rsp", "rbp", "rsi", "rdi", "r8", "r9", "r10", "r11", "r12", "r13", "r14", "r15"];
+    const NAMES32: [&str; 16] = ["eax", "ecx", "edx", "ebx", "esp", "ebp", "esi", "edi", "r8d", "r9d", "r10d", "r11d", "r12d", "r13d", "r14d", "r15d"];
     let mut first = true;
-    // values pushed by the sequence itself (push imm32 [; mov dword [rsp+4], imm32]; ret)
+    // values pushed by the sequence itself
     let mut pushed: Vec<u64> = vec![];
     for _ in 0..max_insns {
         if !first && stop.contains(&pc) {
@@ -344,75 +350,103 @@ pub fn x86_follow(mem: &dyn Mem, start: u64, stop: &[u64], max_insns: usize) -> 
         let b0 = mem.byte(pc);
         let b1 = mem.byte(pc.wrapping_add(1));
         let b2 = mem.byte(pc.wrapping_add(2));
-        if b0 == 0xE9 {
+        let b3 = mem.byte(pc.wrapping_add(3));
+        // REX prefix (only W and B matter for the forms below)
+        let (rex, op, op1, op2, plen) = if (0x40..=0x4F).contains(&b0) { (b0, b1, b2, b3, 1u64) } else { (0u8, b0, b1, b2, 0u64) };
+        let (w, bext) = (rex & 8 != 0, ((rex & 1) << 3) as usize);
+        let unknown = |o: &mut X86Out| {
+            o.trace.push(format!("{pc:#x}: .byte {b0:#04x},{b1:#04x},{b2:#04x} (not a permitted form)"));
+            o.end = X86End::Unknown { at: pc, bytes: [b0, b1, b2, b3] };
+        };
+        if rex == 0 && op == 0xE9 {
             let rel = mem.rd32(pc.wrapping_add(1)) as i32 as i64;
             let dst = pc.wrapping_add(5).wrapping_add(rel as u64);
             o.trace.push(format!("{pc:#x}: jmp {dst:#x}"));
             o.insns.push((pc, 5));
             o.hops.push(dst);
             pc = dst;
-        } else if b0 == 0x48 && b1 == 0xB8 {
-            let imm = mem.rd64(pc.wrapping_add(2));
-            o.trace.push(format!("{pc:#x}: movabs rax, {imm:#x}"));
+        } else if (0xB8..=0xBF).contains(&op) && w {
+            let r = (op - 0xB8) as usize + bext;
+            let imm = mem.rd64(pc.wrapping_add(plen + 1));
+            o.trace.push(format!("{pc:#x}: movabs {}, {imm:#x}", NAMES[r]));
             o.insns.push((pc, 10));
-            rax = Some(imm);
-            o.rax_written = true;
+            reg[r] = Some(imm);
+            o.rax_written |= r == 0;
             pc = pc.wrapping_add(10);
-        } else if b0 == 0xFF && b1 == 0xE0 {
-            o.trace.push(format!("{pc:#x}: jmp rax"));
-            o.insns.push((pc, 2));
-            match rax {
+        } else if (0xB8..=0xBF).contains(&op) && !w {
+            let r = (op - 0xB8) as usize + bext;
+            let imm = mem.rd32(pc.wrapping_add(plen + 1)) as u64;
+            o.trace.push(format!("{pc:#x}: mov {}, {imm:#x}", NAMES32[r]));
+            o.insns.push((pc, (plen + 5) as usize));
+            reg[r] = Some(imm);
+            o.rax_written |= r == 0;
+            pc = pc.wrapping_add(plen + 5);
+        } else if op == 0xC7 && w && (op1 & 0xF8) == 0xC0 {
+            let r = (op1 & 7) as usize + bext;
+            let imm = mem.rd32(pc.wrapping_add(plen + 2)) as i32 as i64 as u64;
+            o.trace.push(format!("{pc:#x}: mov {}, {imm:#x}", NAMES[r]));
+            o.insns.push((pc, 7));
+            reg[r] = Some(imm);
+            o.rax_written |= r == 0;
+            pc = pc.wrapping_add(7);
+        } else if op == 0xFF && (op1 & 0xF8) == 0xE0 && (rex == 0 || rex & 0xE == 0) {
+            let r = (op1 & 7) as usize + bext;
+            o.trace.push(format!("{pc:#x}: jmp {}", NAMES[r]));
+            o.insns.push((pc, (plen + 2) as usize));
+            match reg[r] {
                 Some(v) => {
                     o.hops.push(v);
                     pc = v;
                 }
                 None => {
-                    o.end = X86End::Unknown { at: pc, bytes: [b0, b1, b2, 0] };
+                    unknown(&mut o);
                     return o;
                 }
             }
-        } else if b0 == 0xFF && b1 == 0x25 && mem.rd32(pc.wrapping_add(2)) == 0 {
+        } else if rex == 0 && op == 0xFF && op1 == 0x25 && mem.rd32(pc.wrapping_add(2)) == 0 {
             let dst = mem.rd64(pc.wrapping_add(6));
             o.trace.push(format!("{pc:#x}: jmp [rip+0] ; {dst:#x}"));
             o.insns.push((pc, 14));
             o.hops.push(dst);
             pc = dst;
-        } else if b0 == 0x48 && b1 == 0xC7 && b2 == 0xC0 {
-            let imm = mem.rd32(pc.wrapping_add(3)) as i32 as i64 as u64;
-            o.trace.push(format!("{pc:#x}: mov rax, {imm:#x}"));
-            o.insns.push((pc, 7));
-            rax = Some(imm);
-            o.rax_written = true;
-            pc = pc.wrapping_add(7);
-        } else if b0 == 0xB8 {
-            let imm = mem.rd32(pc.wrapping_add(1)) as u64;
-            o.trace.push(format!("{pc:#x}: mov eax, {imm:#x}"));
-            o.insns.push((pc, 5));
-            rax = Some(imm);
-            o.rax_written = true;
-            pc = pc.wrapping_add(5);
-        } else if b0 == 0xB0 {
+        } else if rex == 0 && op == 0xB0 {
             // mov al, imm8 : only the low byte becomes known
-            let imm = b1 as u64;
+            let imm = op1 as u64;
             o.trace.push(format!("{pc:#x}: mov al, {imm:#x}"));
             o.insns.push((pc, 2));
-            rax = Some(rax.unwrap_or(0) & !0xFF | imm);
+            reg[0] = Some(reg[0].unwrap_or(0) & !0xFF | imm);
             o.rax_written = true;
             pc = pc.wrapping_add(2);
-        } else if b0 == 0x31 && b1 == 0xC0 {
+        } else if (op == 0x31 || op == 0x33) && op1 == 0xC0 && (rex == 0 || rex == 0x48) {
             o.trace.push(format!("{pc:#x}: xor eax, eax"));
-            o.insns.push((pc, 2));
-            rax = Some(0);
+            o.insns.push((pc, (plen + 2) as usize));
+            reg[0] = Some(0);
             o.rax_written = true;
-            pc = pc.wrapping_add(2);
-        } else if b0 == 0x68 {
+            pc = pc.wrapping_add(plen + 2);
+        } else if rex == 0 && op == 0x68 {
             // push imm32 (sign-extended to 64 bits)
             let v = mem.rd32(pc.wrapping_add(1)) as i32 as i64 as u64;
             o.trace.push(format!("{pc:#x}: push {v:#x}"));
             o.insns.push((pc, 5));
             pushed.push(v);
             pc = pc.wrapping_add(5);
-        } else if b0 == 0xC7 && b1 == 0x44 && b2 == 0x24 && mem.byte(pc.wrapping_add(3)) == 0x04 && !pushed.is_empty() {
+        } else if rex == 0 && op == 0x6A {
+            // push imm8 (sign-extended to 64 bits)
+            let v = op1 as i8 as i64 as u64;
+            o.trace.push(format!("{pc:#x}: push {v:#x}"));
+            o.insns.push((pc, 2));
+            pushed.push(v);
+            pc = pc.wrapping_add(2);
+        } else if (0x58..=0x5F).contains(&op) && (rex == 0 || rex == 0x41) && !pushed.is_empty() {
+            // pop r64 : only of a value the sequence pushed itself
+            let r = (op - 0x58) as usize + bext;
+            let v = pushed.pop().unwrap();
+            o.trace.push(format!("{pc:#x}: pop {} ; {v:#x}", NAMES[r]));
+            o.insns.push((pc, (plen + 1) as usize));
+            reg[r] = Some(v);
+            o.rax_written |= r == 0;
+            pc = pc.wrapping_add(plen + 1);
+        } else if rex == 0 && op == 0xC7 && op1 == 0x44 && op2 == 0x24 && mem.byte(pc.wrapping_add(3)) == 0x04 && !pushed.is_empty() {
             // mov dword ptr [rsp+4], imm32 : upper half of the value just pushed
             let hi = mem.rd32(pc.wrapping_add(4)) as u64;
             let top = pushed.last_mut().unwrap();
@@ -420,20 +454,27 @@ pub fn x86_follow(mem: &dyn Mem, start: u64, stop: &[u64], max_insns: usize) -> 
             o.trace.push(format!("{pc:#x}: mov dword ptr [rsp+4], {hi:#x}"));
             o.insns.push((pc, 8));
             pc = pc.wrapping_add(8);
-        } else if b0 == 0xC3 && !pushed.is_empty() {
+        } else if rex == 0 && op == 0x90 {
+            o.trace.push(format!("{pc:#x}: nop"));
+            o.insns.push((pc, 1));
+            pc = pc.wrapping_add(1);
+        } else if b0 == 0xF3 && b1 == 0x0F && b2 == 0x1E && b3 == 0xFA {
+            o.trace.push(format!("{pc:#x}: endbr64"));
+            o.insns.push((pc, 4));
+            pc = pc.wrapping_add(4);
+        } else if rex == 0 && op == 0xC3 && !pushed.is_empty() {
             let dst = pushed.pop().unwrap();
             o.trace.push(format!("{pc:#x}: ret ; to pushed {dst:#x}"));
             o.insns.push((pc, 1));
             o.hops.push(dst);
             pc = dst;
-        } else if b0 == 0xC3 {
+        } else if rex == 0 && op == 0xC3 {
             o.trace.push(format!("{pc:#x}: ret"));
             o.insns.push((pc, 1));
-            o.end = X86End::Ret { at: pc, rax };
+            o.end = X86End::Ret { at: pc, rax: reg[0] };
             return o;
         } else {
-            o.trace.push(format!("{pc:#x}: .byte {b0:#04x},{b1:#04x},{b2:#04x} (not a permitted form)"));
-            o.end = X86End::Unknown { at: pc, bytes: [b0, b1, b2, mem.byte(pc.wrapping_add(3))] };
+            unknown(&mut o);
             return o;
         }
     }
